@@ -1,1 +1,211 @@
-(* C13 proofs: in progress *)
+(* C13 proofs: operations of a history leave environment objects and existing compiled expressions alone, results of
+   invocations / compilations depend only on their own inputs, only print writes to standard output, and rendering a map
+   does not depend on the order its entries are held in. *)
+From Coq Require Import List String Bool Arith NArith ZArith Lia Permutation.
+From Yae Require Import Base.Sexp Model.Ty Gen.Generated Model.Unify Model.Num Model.Lexer Model.Literal Model.Cst Model.Check Model.Val Model.Render
+  Model.ValSpec Model.Builtins Model.Eval Model.VM Model.Api Model.History Proofs.C18Proofs.
+Import ListNotations.
+
+(* ------------------------------------------------------------------------------------------------ *)
+(* environment objects and histories                                                                 *)
+(* ------------------------------------------------------------------------------------------------ *)
+
+Lemma inherit_pure : forall X (e : envobj X) p e',
+  inherit e p = Some e' -> eo_ctx e' = eo_ctx e /\ eo_parent e = None /\ inherit e p = Some e'.
+Proof.
+  intros X e p e' H. unfold inherit in *. destruct (eo_parent e) as [q|] eqn:E; [discriminate|].
+  inversion H; subst. repeat split.
+Qed.
+
+Definition unchanged (s s' : hstate) : Prop :=
+  h_tenvs s' = h_tenvs s /\ h_venvs s' = h_venvs s /\ exists more, h_compiled s' = (h_compiled s ++ more)%list.
+
+Lemma unchanged_refl s : unchanged s s.
+Proof. repeat split. exists []. symmetry. apply app_nil_r. Qed.
+
+Lemma unchanged_trans s1 s2 s3 : unchanged s1 s2 -> unchanged s2 s3 -> unchanged s1 s3.
+Proof.
+  intros [A1 [B1 [m1 C1]]] [A2 [B2 [m2 C2]]]. repeat split; try congruence.
+  exists (m1 ++ m2)%list. rewrite C2, C1. symmetry. apply app_assoc.
+Qed.
+
+Lemma hstep_unchanged ops orc s o : unchanged s (fst (hstep ops orc s o)).
+Proof.
+  destruct o as [i sg|i src j|k j]; unfold hstep.
+  - destruct (nth_error (h_engines s) i) as [e|]; cbn [fst]; [|apply unchanged_refl].
+    repeat split. exists []. symmetry. apply app_nil_r.
+  - destruct (nth_error (h_engines s) i) as [e|]; [|apply unchanged_refl].
+    destruct (nth_error (h_tenvs s) j) as [te|]; [|apply unchanged_refl].
+    cbv zeta.
+    destruct (inherit te []) as [te'|].
+    + destruct (api_compile ops orc (en_table (engine_init e)) (eo_ctx te) src) as [[[a code] pool]| |]; cbn [fst].
+      * repeat split. cbn. eexists. reflexivity.
+      * repeat split. exists []. symmetry. apply app_nil_r.
+      * repeat split. exists []. symmetry. apply app_nil_r.
+    + cbn [fst]. repeat split. exists []. symmetry. apply app_nil_r.
+  - destruct (nth_error (h_compiled s) k) as [c|]; [|apply unchanged_refl].
+    destruct (nth_error (h_venvs s) j) as [ve|]; [|apply unchanged_refl].
+    destruct (inherit ve []) as [ve'|]; [|apply unchanged_refl].
+    destruct (api_call ops orc (c_tenv c) (c_code c) (c_pool c) (eo_ctx ve)) as [r t]. apply unchanged_refl.
+Qed.
+
+Lemma hrun_cons_fst ops orc s o r : fst (hrun ops orc s (o :: r)) = fst (hrun ops orc (fst (hstep ops orc s o)) r).
+Proof.
+  cbn [hrun]. destruct (hstep ops orc s o) as [s1 out]. cbn [fst].
+  destruct (hrun ops orc s1 r) as [s2 outs]. reflexivity.
+Qed.
+
+Lemma hrun_unchanged ops orc : forall hs s, unchanged s (fst (hrun ops orc s hs)).
+Proof.
+  induction hs as [|o r IH]; intros s.
+  - apply unchanged_refl.
+  - rewrite hrun_cons_fst. eapply unchanged_trans; [apply hstep_unchanged|apply IH].
+Qed.
+
+Lemma inputs_unchanged : forall ops orc s hs,
+  let s' := fst (hrun ops orc s hs) in
+  h_tenvs s' = h_tenvs s /\ h_venvs s' = h_venvs s /\
+  exists more, h_compiled s' = (h_compiled s ++ more)%list.
+Proof. intros ops orc s hs. exact (hrun_unchanged ops orc hs s). Qed.
+
+Lemma invoke_stable : forall ops orc s hs k j,
+  (k < len (h_compiled s))%nat ->
+  snd (hstep ops orc (fst (hrun ops orc s hs)) (HInvoke k j)) = snd (hstep ops orc s (HInvoke k j)).
+Proof.
+  intros ops orc s hs k j Hk.
+  destruct (hrun_unchanged ops orc hs s) as [_ [Hv [more Hc]]].
+  unfold hstep. rewrite Hv, Hc. rewrite nth_error_app1 by exact Hk.
+  destruct (nth_error (h_compiled s) k) as [c|]; [|reflexivity].
+  destruct (nth_error (h_venvs s) j) as [ve|]; [|reflexivity].
+  destruct (inherit ve []) as [ve'|]; [|reflexivity].
+  destruct (api_call ops orc (c_tenv c) (c_code c) (c_pool c) (eo_ctx ve)) as [r t]. reflexivity.
+Qed.
+
+Lemma compile_local : forall ops orc s1 s2 i j src,
+  nth_error (h_engines s1) i = nth_error (h_engines s2) i ->
+  option_map (@eo_ctx ty) (nth_error (h_tenvs s1) j) = option_map (@eo_ctx ty) (nth_error (h_tenvs s2) j) ->
+  option_map (@eo_parent ty) (nth_error (h_tenvs s1) j) = option_map (@eo_parent ty) (nth_error (h_tenvs s2) j) ->
+  snd (hstep ops orc s1 (HCompile i src j)) = snd (hstep ops orc s2 (HCompile i src j)).
+Proof.
+  intros ops orc s1 s2 i j src He Hc Hp. unfold hstep. rewrite He.
+  destruct (nth_error (h_engines s2) i) as [e|]; [|reflexivity].
+  destruct (nth_error (h_tenvs s1) j) as [[p1 c1]|]; destruct (nth_error (h_tenvs s2) j) as [[p2 c2]|];
+    cbn [option_map eo_ctx eo_parent] in Hc, Hp; try discriminate; [|reflexivity].
+  inversion Hc; inversion Hp; subst. cbv zeta.
+  destruct (inherit {| eo_parent := p2; eo_ctx := c2 |} []) as [te'|]; [|reflexivity].
+  cbn [eo_ctx].
+  destruct (api_compile ops orc (en_table (engine_init e)) c2 src) as [[[a code] pool]| |]; reflexivity.
+Qed.
+
+Lemma init_idempotent : forall e, engine_init (engine_init e) = engine_init e.
+Proof. intros e. unfold engine_init. destruct (en_init e) eqn:E; [rewrite E; reflexivity|reflexivity]. Qed.
+
+(* ------------------------------------------------------------------------------------------------ *)
+(* only print writes to standard output                                                              *)
+(* ------------------------------------------------------------------------------------------------ *)
+
+Definition quiet {X} (m : M X) : Prop := fst m = [].
+
+Lemma quiet_ret {X} (x : X) : quiet (ret x). Proof. reflexivity. Qed.
+Lemma quiet_fail {X} k : quiet (@fail X k). Proof. reflexivity. Qed.
+Lemma quiet_fault {X} k : quiet (@fault X k). Proof. reflexivity. Qed.
+Lemma quiet_bind {X Y} (m : M X) (f : X -> M Y) : quiet m -> (forall x, quiet (f x)) -> quiet (mbind m f).
+Proof.
+  unfold quiet, mbind. destruct m as [t [x|k|k]]; cbn [fst]; intros Ht Hf; try exact Ht.
+  subst t. specialize (Hf x). destruct (f x) as [t' o]. cbn [fst] in *. subst t'. reflexivity.
+Qed.
+Lemma quiet_as_num v : quiet (as_num v). Proof. destruct v; reflexivity. Qed.
+Lemma quiet_as_bool v : quiet (as_bool v). Proof. destruct v; reflexivity. Qed.
+Lemma quiet_as_str v : quiet (as_str v). Proof. destruct v; reflexivity. Qed.
+Lemma quiet_as_time v : quiet (as_time v). Proof. destruct v; reflexivity. Qed.
+Lemma quiet_as_list v : quiet (as_list v). Proof. destruct v; reflexivity. Qed.
+Lemma quiet_as_map v : quiet (as_map v). Proof. destruct v; reflexivity. Qed.
+Lemma quiet_key_of ops v : quiet (key_of ops v). Proof. destruct v; reflexivity. Qed.
+
+Lemma quiet_fold_num ops f vs : quiet (fold_num ops f vs).
+Proof.
+  unfold fold_num. destruct vs as [|v0 r]; [apply quiet_ret|].
+  apply quiet_bind; [apply quiet_as_num|]. intros x0.
+  apply quiet_bind; [|intros; apply quiet_ret].
+  revert x0. induction r as [|v r IH]; intros acc.
+  - apply quiet_ret.
+  - apply quiet_bind; [apply quiet_as_num|]. intros x. apply IH.
+Qed.
+
+Ltac quiet_tac :=
+  repeat first
+    [ apply quiet_ret | apply quiet_fail | apply quiet_fault
+    | apply quiet_as_num | apply quiet_as_bool | apply quiet_as_str | apply quiet_as_time
+    | apply quiet_as_list | apply quiet_as_map | apply quiet_key_of | apply quiet_fold_num
+    | apply quiet_bind; [|intros ?]
+    | match goal with
+      | |- quiet (match ?x with _ => _ end) => destruct x
+      end ].
+
+Lemma bsem_quiet ops orc b args : b <> BPrint -> quiet (bsem ops orc b args).
+Proof.
+  intros Hb. destruct b; try (exfalso; apply Hb; reflexivity);
+    unfold bsem, num1, num2, time2, any2; quiet_tac.
+Qed.
+
+Lemma stdout_only_print : forall ops orc b args t o,
+  b <> BPrint -> bsem ops orc b args = (t, o) -> forall s, ~ In (EvStdout s) t.
+Proof.
+  intros ops orc b args t o Hb H s Hin.
+  pose proof (bsem_quiet ops orc b args Hb) as Hq. unfold quiet in Hq. rewrite H in Hq. cbn [fst] in Hq.
+  subst t. exact Hin.
+Qed.
+
+(* ------------------------------------------------------------------------------------------------ *)
+(* rendering does not depend on the order of a map's entries                                         *)
+(* ------------------------------------------------------------------------------------------------ *)
+
+Lemma render_map_eq ops t kvs :
+  render ops (VMap t kvs) =
+  match kvs with
+  | [] => bytes_of_string "[:]"
+  | _ => [91%N] ++ join_bytes (bytes_of_string ", ")
+           (map (fun kr => fst kr ++ bytes_of_string ": " ++ snd kr)
+              (sort_by fst (map (fun kv => (fst kv, render ops (snd kv))) kvs))) ++ [93%N]
+  end%list.
+Proof. destruct kvs; reflexivity. Qed.
+
+Lemma stringify_map_eq ops t kvs :
+  stringify ops (VMap t kvs) =
+  match kvs with
+  | [] => bytes_of_string "[:]"
+  | _ => [91%N] ++ join_bytes (bytes_of_string ", ")
+           (map (fun kr => fst kr ++ bytes_of_string ": " ++ snd kr)
+              (sort_by fst (map (fun kv => (fst kv, stringify ops (snd kv))) kvs))) ++ [93%N]
+  end%list.
+Proof. destruct kvs; reflexivity. Qed.
+
+Lemma sort_rendered_perm (g : val -> list N) (kvs kvs' : list (list N * val)) :
+  Permutation kvs kvs' -> nodup_keys (map fst kvs) = true ->
+  sort_by fst (map (fun kv => (fst kv, g (snd kv))) kvs) = sort_by fst (map (fun kv => (fst kv, g (snd kv))) kvs').
+Proof.
+  intros Hp Hnd. apply sort_by_perm_eq.
+  - rewrite map_map. cbn [fst]. apply nodup_keys_NoDup. exact Hnd.
+  - apply Permutation_map. exact Hp.
+Qed.
+
+Lemma render_perm : forall ops t kvs kvs',
+  Permutation kvs kvs' -> nodup_keys (map fst kvs) = true ->
+  render ops (VMap t kvs) = render ops (VMap t kvs') /\ stringify ops (VMap t kvs) = stringify ops (VMap t kvs').
+Proof.
+  intros ops t kvs kvs' Hp Hnd. rewrite !render_map_eq, !stringify_map_eq.
+  destruct kvs as [|a r].
+  - apply Permutation_nil in Hp. subst kvs'. split; reflexivity.
+  - destruct kvs' as [|b r'].
+    { apply Permutation_sym, Permutation_nil in Hp. discriminate. }
+    rewrite (sort_rendered_perm (render ops) _ _ Hp Hnd), (sort_rendered_perm (stringify ops) _ _ Hp Hnd).
+    split; reflexivity.
+Qed.
+
+Print Assumptions inherit_pure.
+Print Assumptions inputs_unchanged.
+Print Assumptions invoke_stable.
+Print Assumptions compile_local.
+Print Assumptions init_idempotent.
+Print Assumptions stdout_only_print.
+Print Assumptions render_perm.
